@@ -1250,8 +1250,8 @@ func runC16(c *Ctx) {
 		}
 		big := 0
 		if c.Tier == "quick" {
-			if i < len(quickBig) {
-				big = quickBig[i]
+			if i%24 == 0 && i/24 < len(quickBig) { // spread over the run (the model is run in contiguous shards)
+				big = quickBig[i/24]
 			}
 		} else if i%40 == 0 {
 			big = thoroughBig[(i/40)%len(thoroughBig)]
